@@ -1,14 +1,14 @@
 import Norad.Base.Proto
 import Norad.Model.Layers
+import Norad.Model.C07
 /-!
 Driver module for C06 (and the container level of C07): operation histories.
 See `harness/src/c06.rs` for the line format.
 
-The file-name functions are instantiated by an *oracle*: the path the implementation assigned (visible
-in the observed post-state).  The contract the theorems assume of them (`AssignOK`: the result was not
-taken; `AssignLOK`: never `glyphs`) is what the specification rules `glyph-paths-distinct`,
-`layer-paths-distinct` and `one-default-first` check on the observed states; the algorithm itself is
-tied to the code by the C07 function-level correspondence.
+The file-name functions are the C07 model (`C07.glyphFileName`, `C07.layerDirName`, proved to meet the
+contracts `AssignOK` / `AssignLOK` in `Props/C07Containers.lean`), with `is_uppercase` / `to_lowercase`
+of the non-ASCII characters of the pools sent by the harness, so the model predicts every assigned path
+exactly, which ties the `path_set` bookkeeping of the containers to the model as well.
 -/
 namespace Driver.C06
 open Proto Layers
@@ -53,21 +53,30 @@ def parseObs (tok : String) : Option (String × List ObsLayer) :=
   | [r, st] => (parseObsState st).map (fun s => (r, s))
   | _ => none
 
-def parseLc (tok : String) : List (Str × Str) :=
+def parseLc (tok : String) : List (Str × Str × Bool) :=
   let body := (tok.drop 3).toString
   (splitOnC body ",").filterMap fun e =>
     match e.splitOn ":" with
+    | [u, l, up] => match unhexStr u, unhexStr l with
+      | some u', some l' => some (u', l', up = "1")
+      | _, _ => none
     | [u, l] => match unhexStr u, unhexStr l with
-      | some u', some l' => some (u', l')
+      | some u', some l' => some (u', l', false)
       | _, _ => none
     | _ => none
 
-def lowerWith (tbl : List (Str × Str)) (s : Str) : Str :=
+def lowerWith (tbl : List (Str × Str × Bool)) (s : Str) : Str :=
   s.flatMap fun c =>
     if c.toNat < 128 then [c.toLower]
     else match tbl.find? (fun e => e.1 = [c]) with
-      | some e => e.2
+      | some e => e.2.1
       | none => [c]
+
+def upperWith (tbl : List (Str × Str × Bool)) (c : Char) : Bool :=
+  if c.toNat < 128 then c.isUpper
+  else match tbl.find? (fun e => e.1 = [c]) with
+    | some e => e.2.2
+    | none => false
 
 def parseBool (s : String) : Bool := s = "1"
 
@@ -162,18 +171,11 @@ structure Acc where
   steps : Nat := 0
   errs : Nat := 0
 
-def stepAll (lower : Str → Str) (acc : Acc) (opTok : String) (obsTok : String) : Acc :=
+def stepAll (U : Char → Bool) (lower : Str → Str) (acc : Acc) (opTok : String) (obsTok : String) : Acc :=
   match parseOp opTok, parseObs obsTok with
   | some op, some (r, post) =>
-    let li := match op with
-      | .insertGlyph i _ | .removeGlyph i _ | .renameGlyph i _ _ _ | .clear i | .retain i _
-      | .entryOrInsert i _ | .entryRemove i _ => i
-      | _ => 0
-    let assignG : Str → List Str → Option Str := fun g _ =>
-      match post[li]? with
-      | some l => lookup g l.paths
-      | none => none
-    let assignL : Str → List Str → Option Str := fun n _ => (post.find? (·.name = n)).map (·.path)
+    let assignG := C07.glyphFileName U lower
+    let assignL := C07.layerDirName U lower
     let (st', mr) := step lower assignG assignL validName acc.st op
     let okRes := resClass mr == obsResClass r
     let okSt := stateMatches st' post
@@ -203,6 +205,7 @@ def run (inp obs : List String) : Verdict :=
   match inp with
   | _ :: lcTok :: initTok :: opToks =>
     let lower := lowerWith (parseLc lcTok)
+    let U := upperWith (parseLc lcTok)
     let stepObs := obs.takeWhile (· ≠ "|")
     let fin := (obs.dropWhile (· ≠ "|")).drop 1
     -- initial state
@@ -223,7 +226,7 @@ def run (inp obs : List String) : Verdict :=
                             spec := (specState lower o0).map (fun r => if initTok = "new" then r else r ++ ":at-load"),
                             firstBad := if stateMatches st0 o0 then "" else "init-state" }
         if opToks.length ≠ restObs.length then { agree := false, model := "length-mismatch" } else
-        let acc := (opToks.zip restObs).foldl (fun a e => stepAll lower a e.1 e.2) acc0
+        let acc := (opToks.zip restObs).foldl (fun a e => stepAll U lower a e.1 e.2) acc0
         -- final save / load
         let unsynced := acc.st.layers.any fun l => sortStrs l.glyphs ≠ sortStrs (keys l.contents)
         let usedEntry := opToks.any (fun t => t.startsWith "eo." || t.startsWith "er.")
